@@ -311,7 +311,8 @@ class Padding(WidgetDecoration[WrappedWidget], typing.Generic[WrappedWidget]):
             canv = self._original_widget.render((), focus)
 
         if canv.cols() == 0:
-            canv = SolidCanvas(" ", size[0], canv.rows())
+            # a fixed rendering has no size to take the width from: it is as wide as pack() says
+            canv = SolidCanvas(" ", size[0] if size else self.pack(size, focus)[0], canv.rows())
             canv = CompositeCanvas(canv)
             canv.set_depends([self._original_widget])
             return canv
